@@ -215,6 +215,90 @@ theorem insert_existing_keeps_pos (kind : Kind) (h : Nat → Nat) (t : Table) (h
       · intro e; first | exact absurd e hkind | cases e
       · intro _; first | trivial | rfl
 
+/-! ### the object itself as the `other` argument -/
+
+/-- specification level: appending a unique-key table to itself changes nothing (every key is found; HashSet / PoolMap leave
+    the entry untouched), removing it from itself empties it -/
+theorem self_append_remove_spec (kind : Kind) (hk : kind ≠ Kind.map) (l : Spec.Tab) (hn : (Spec.keys l).Nodup) :
+    Spec.appendAll kind l l = l ∧ Spec.removeAll l l = [] := by
+  constructor
+  · have : ∀ (o : Spec.Tab), (∀ e ∈ o, e ∈ l) → Spec.appendAll kind l o = l := by
+      intro o
+      induction o with
+      | nil => intro _; rfl
+      | cons e r ih =>
+        intro ho
+        have he : e ∈ l := ho e List.mem_cons_self
+        have hlk : ∃ i, Spec.lookup e.1 l = some (i, e.2) := by
+          clear ih ho
+          induction l with
+          | nil => cases he
+          | cons f l' ih' =>
+            simp only [Spec.keys, List.map_cons, List.nodup_cons] at hn
+            simp only [Spec.lookup]
+            rcases List.mem_cons.1 he with e1 | e1
+            · subst e1; exact ⟨0, by simp⟩
+            · have hne : f.1 ≠ e.1 := fun c => hn.1 (by rw [c]; exact List.mem_map.2 ⟨e, e1, rfl⟩)
+              obtain ⟨i, hi⟩ := ih' hn.2 e1
+              exact ⟨i + 1, by simp [hne, hi]⟩
+        obtain ⟨i, hi⟩ := hlk
+        simp only [Spec.appendAll, Spec.insert, hi, hk, if_false]
+        exact ih (fun x hx => ho x (List.mem_cons_of_mem _ hx))
+    exact this l (fun _ h => h)
+  · simp only [Spec.removeAll, List.filter_eq_nil_iff, decide_eq_true_eq, Decidable.not_not]
+    intro e he
+    exact List.mem_map.2 ⟨e, he, rfl⟩
+
+/-- model level, every state satisfying the invariant (hence every reachable one), every hash function: `t = t` and
+    `t.swap(t)` return the state unchanged, HashSet `t.append(t)` returns the TABLE unchanged (no item is linked, allocated or
+    written: the loop over the own list finds every key), `t.remove(t)` releases every item: the table iterates as empty -/
+theorem self_arguments (kind : Kind) (h : Nat → Nat) (s : State) (hs : SInv h s) (t : Bool) :
+    (∀ s' o, step kind h s (.assignSelf t) = some (s', o) → s' = s) ∧
+    (∀ s' o, step kind h s (.swapSelf t) = some (s', o) → s' = s) ∧
+    (∀ s' o, step kind h s (.appendSelf t) = some (s', o) → s' = s) ∧
+    (∀ s' o, step kind h s (.removeSelf t) = some (s', o) →
+      (s'.get t).iterate = [] ∧ s'.get (!t) = s.get (!t) ∧ ∀ id ∈ (s.get t).order, id ∈ (s'.get t).free) := by
+  have hss : s.set t (s.get t) = s := by cases t <;> rfl
+  refine ⟨?_, ?_, ?_, ?_⟩
+  · intro s' o hst
+    by_cases hav : (Op.assignSelf t).available kind = true
+    · simp only [step, hav, Bool.not_true, Bool.false_eq_true, if_false, Option.some.injEq, Prod.mk.injEq] at hst; exact hst.1.symm
+    · simp [step, hav] at hst
+  · intro s' o hst
+    simp only [step, Op.available, Bool.not_true, Bool.false_eq_true, if_false, Option.some.injEq, Prod.mk.injEq] at hst
+    exact hst.1.symm
+  · intro s' o hst
+    by_cases hav : (Op.appendSelf t).available kind = true
+    · have hk : kind ≠ Kind.map := by
+        intro hk; rw [hk] at hav; simp [Op.available] at hav
+      simp only [step, hav, Bool.not_true, Bool.false_eq_true, if_false, Option.some.injEq, Prod.mk.injEq,
+        Ptr.appendAll_own (hs.get t) kind hk _ (fun _ hx => hx), hss] at hst
+      exact hst.1.symm
+    · simp [step, hav] at hst
+  · intro s' o hst
+    by_cases hav : (Op.removeSelf t).available kind = true
+    · simp only [step, hav, Bool.not_true, Bool.false_eq_true, if_false, Option.some.injEq, Prod.mk.injEq] at hst
+      rw [← hst.1, get_set_same, get_set_other]
+      have h1 := (hs.get t).removeAll (s.get t).items (s.get t).order
+      refine ⟨?_, rfl, fun id hid => ?_⟩
+      · rw [h1.2, ← Table.iterate_eq]
+        simp only [Spec.removeAll, List.filter_eq_nil_iff, decide_eq_true_eq, Decidable.not_not]
+        intro e he
+        exact List.mem_map.2 ⟨e, he, rfl⟩
+      · exact (((hs.get t).removeAll_stable (s.get t).items (s.get t).order id hid).2.2 (List.mem_map.2 ⟨id, hid, rfl⟩)).2
+    · simp [step, hav] at hst
+
+open Ptr in
+/-- pointer level: in coupled states HashSet `a.append(a)` – the loop that reads `i->key` and `i->next` from the very list
+    `insert` works on – terminates within `size` iterations and returns the pointer structure unchanged; `a.swap(a)` (both
+    halves of `swap` acting on one object) and `a.remove(a)` (which reads `i->next` of the item it has just released) keep
+    the structure coupled with the chain-list result; none of them faults -/
+theorem ptr_self_arguments (kind : Kind) (h : Nat → Nat) (pt : PTable) (t : Table) (hr : Rel pt t) (hi : t.Inv h) :
+    (kind ≠ Kind.map → PTable.appendSelf kind h pt = some pt) ∧
+    (Rel pt.swapSelf t ∧ pt.swapSelf.self = pt.self) ∧
+    (∃ pt', PTable.removeSelf h pt = some pt' ∧ Rel pt' (Table.removeAll h t t.items t.order) ∧ pt'.self = pt.self) :=
+  ⟨fun hk => (hr.appendSelf hi kind hk).1, hr.swapSelf hi, hr.removeSelf hi⟩
+
 /-! ### `hash(const String&)` -/
 
 /-- the three indices read by `hash(const String&)` lie within the `len + 1` bytes (text + terminator) of the string -/
